@@ -547,6 +547,8 @@ pub enum TraceEv {
     Enter(usize),
     /// load(X) / load(Y) / store(X) / store(Y): a register transfer, by opcode
     Xfer(u8),
+    /// an explicit statement was executed: 1 = load(..), 2 = store(..) / strobe(..)
+    Explicit(u8),
 }
 
 #[derive(Clone, Debug, PartialEq, Eq)]
@@ -1224,6 +1226,7 @@ impl<'a> Interp<'a> {
                 Ok(Flow::Next)
             }
             Stmt::Load(e) => {
+                self.trace.push(TraceEv::Explicit(1));
                 // load(x): reads x into the accumulator; if x is a hardware register the read is an event
                 if let Expr::Lv(LV::Deref(v)) = e {
                     if let VarKind::HwReg(a) = self.p.vars[*v].kind {
@@ -1242,6 +1245,7 @@ impl<'a> Interp<'a> {
                 Ok(Flow::Next)
             }
             Stmt::Store(l) => {
+                self.trace.push(TraceEv::Explicit(2));
                 if let LV::Deref(v) = l {
                     if let VarKind::HwReg(a) = self.p.vars[*v].kind {
                         self.trace.push(TraceEv::Store(a));
@@ -1264,6 +1268,7 @@ impl<'a> Interp<'a> {
                 }
             }
             Stmt::Strobe(v) => {
+                self.trace.push(TraceEv::Explicit(2));
                 if let VarKind::HwReg(a) = self.p.vars[*v].kind {
                     self.trace.push(TraceEv::Strobe(a));
                 }
